@@ -86,6 +86,11 @@ func recvTypeName(t types.Type) string {
 	return ptr + t.String()
 }
 
+// ExtraInstances: instantiations of generic types whose methods are to be loaded, as
+// "pkg/path.Type[arg, ...]" with predeclared type arguments (set from props/<id>.json `instantiate`
+// or the verify -inst flag).
+var ExtraInstances []string
+
 func LoadProgram(patterns []string) (*Program, error) {
 	cfg := &packages.Config{
 		Mode:       packages.LoadSyntax,
@@ -118,6 +123,53 @@ func LoadProgram(patterns []string) (*Program, error) {
 			continue
 		}
 		P.Funcs[CanonName(fn)] = fn
+	}
+	// methods of generic types instantiated on request ("pkg/path.Type[int64]"): go/ssa creates
+	// such instances only where the program needs them at run time; a contract on a method of a
+	// generic type is checked on the instance the application uses
+	for _, spec := range ExtraInstances {
+		i, j := strings.Index(spec, "["), strings.LastIndex(spec, "]")
+		dot := strings.LastIndex(spec[:max(i, 0)], ".")
+		if i < 0 || j < i || dot < 0 {
+			return nil, fmt.Errorf("bad instance spec %q", spec)
+		}
+		pkgPath, typeName := spec[:dot], spec[dot+1:i]
+		var targs []types.Type
+		for _, a := range strings.Split(spec[i+1:j], ",") {
+			obj := types.Universe.Lookup(strings.TrimSpace(a))
+			if obj == nil {
+				return nil, fmt.Errorf("instance spec %q: only predeclared type arguments are supported", spec)
+			}
+			targs = append(targs, obj.Type())
+		}
+		for _, sp := range spkgs {
+			if sp == nil || (sp.Pkg.Path() != pkgPath && sp.Pkg.Path() != ModPath+"/"+pkgPath) {
+				continue
+			}
+			obj := sp.Pkg.Scope().Lookup(typeName)
+			if obj == nil {
+				continue
+			}
+			named, ok := obj.Type().(*types.Named)
+			if !ok {
+				continue
+			}
+			inst, err := types.Instantiate(nil, named, targs, false)
+			if err != nil {
+				return nil, fmt.Errorf("instance spec %q: %v", spec, err)
+			}
+			for _, t := range []types.Type{inst, types.NewPointer(inst)} {
+				ms := prog.MethodSets.MethodSet(t)
+				for k := 0; k < ms.Len(); k++ {
+					if fn := prog.MethodValue(ms.At(k)); fn != nil && fn.Blocks != nil {
+						P.Funcs[CanonName(fn)] = fn
+						for _, an := range fn.AnonFuncs {
+							P.Funcs[CanonName(an)] = an
+						}
+					}
+				}
+			}
+		}
 	}
 	// contract files
 	for _, p := range pkgs {
@@ -163,12 +215,12 @@ func LoadProgram(patterns []string) (*Program, error) {
 	// packages create: go/ssa builds a separate body per instantiation
 	for key, c := range P.Contracts {
 		fn := P.Funcs[key]
-		if fn == nil || fn.TypeParams().Len() == 0 || len(fn.TypeArgs()) > 0 {
+		if fn != nil && (fn.TypeParams().Len() == 0 || len(fn.TypeArgs()) > 0) {
 			continue
 		}
 		found := false
 		for name := range P.Funcs {
-			if strings.HasPrefix(name, key+"[") {
+			if strings.HasPrefix(name, key+"[") && !strings.Contains(name[len(key):], "$") {
 				P.Contracts[name] = c
 				found = true
 			}
